@@ -386,6 +386,113 @@ def predicate_product(Food, ex, menu):
     return n, len(outcomes)
 
 
+QUERIES = ["get_units", "get_units_from_list_to_total", "get_units_from_list_to_element", "get_units_from_element_to_list", "is_list_monthly",
+           "is_a_ratio", "is_units_percent", "validate_if_list", "make_sure_not_a_list", "make_sure_is_a_list", "make_sure_not_nan",
+           "make_sure_fat_protein_zero_if_kcals_is_zero", "as_numpy_array", "get_min_nutrient", "get_max_nutrient", "__str__", "total_energy_in_food"]
+
+
+def _ref_query_labels(name, r):
+    lab = r.labels()
+    if name == "get_units":
+        return lab
+    if name == "get_units_from_list_to_total":
+        return [b for b in r.base] if r.n is not None else REFUSE
+    if name == "get_units_from_list_to_element":
+        return [b + " per month" for b in r.base] if r.n is not None else REFUSE
+    if name == "get_units_from_element_to_list":
+        return [l + " each month" for l in lab] if r.n is None else REFUSE
+    return None
+
+
+def query_product(ex, seeds):
+    """read-only questions asked of a quantity that KEEPS being used: every query method on every seed, every ordered pair and
+    every ordered sequence of two queries on the one object; mixed single-value / series comparisons on every ordered pair of
+    seeds; replace_if_list_with_zeros_is_zero over every (series, series, replacement).  A query returns the documented labels,
+    leaves the quantity exactly as it was (raw label list included, read without the healing get_units()) and leaves it usable:
+    x + x afterwards still carries x's labels."""
+    import numpy as np
+    Food = ex.Food
+    n = 0
+    for name, r in seeds:
+        for qs in [(q,) for q in QUERIES] + list(itertools.product(QUERIES[:5], repeat=2)):
+            f = food_of(Food, r)
+            before = observe(f)
+            hist = ["seed " + name] + ["query %s()" % q for q in qs]
+            for q in qs:
+                n += 1
+                exp = _ref_query_labels(q, r)
+                try:
+                    with common.quiet():
+                        got = getattr(f, q)()
+                except (AssertionError, ValueError, TypeError, AttributeError, IndexError) as e:
+                    if exp not in (None, REFUSE):
+                        ex.bad("refuses_valid_operation", hist, "%s refused (%r); expected %s" % (q, e, exp))
+                    got = None
+                else:
+                    if exp is REFUSE:
+                        ex.bad("must_refuse", hist, "%s answered %r for a quantity of the wrong shape" % (q, got))
+                    elif exp is not None and list(got) != list(exp):
+                        ex.bad("labels_correct", hist, "%s returned %s, expected %s" % (q, list(got), exp))
+                after = observe(f)
+                if after != before:
+                    ex.bad("operands_unmodified", hist, "%s changed the quantity it was asked about: %s -> %s" % (q, before, after))
+                    break
+            # still usable as before: x + x keeps x's labels and is not refused
+            try:
+                res = f + f
+                if observe(res)[2] != tuple(r.labels()) or state_problems(res):
+                    ex.bad("labels_correct", hist + ["add(x,x)"], "after the queries x + x carries %s, expected %s" % (observe(res)[2:], r.labels()))
+            except AssertionError as e:
+                ex.bad("refuses_valid_operation", hist + ["add(x,x)"], "after the queries x + x is refused: %r" % (e,))
+    # mixed single value / series comparisons and the elementwise replacement
+    for (na, ra), (nb, rb) in itertools.product(seeds, repeat=2):
+        if (ra.n is None) == (rb.n is None):
+            continue
+        for pname in PREDICATES2:
+            n += 1
+            a, b = food_of(Food, ra), food_of(Food, rb)
+            before = (observe(a), observe(b))
+            hist = ["seed " + na, "%s(x, y:%s)" % (pname, nb)]
+            try:
+                getattr(a, pname)(b)
+            except (AssertionError, ValueError, TypeError, AttributeError):
+                pass
+            if (observe(a), observe(b)) != before:
+                ex.bad("operands_unmodified", hist, "%s changed an operand: %s -> %s" % (pname, before, (observe(a), observe(b))))
+    lists = [(nm, r) for nm, r in seeds if r.n == 2]
+    for (na, ra), (nz, rz) in itertools.product(lists, repeat=2):
+        for nr_, rr in list(seeds) + [("number 7.0", None)]:
+            n += 1
+            a, z = food_of(Food, ra), food_of(Food, rz)
+            rep = 7.0 if rr is None else food_of(Food, rr)
+            before = (observe(a), observe(z), None if rr is None else observe(rep))
+            hist = ["seed " + na, "replace_if_list_with_zeros_is_zero(x, zeros:%s, replacement:%s)" % (nz, nr_)]
+            compatible = rr is None or (rr.base == ra.base and (rr.n in (None, 2)) and (rr.n is not None or rr.form == ""))
+            try:
+                res = a.replace_if_list_with_zeros_is_zero(z, rep)
+            except (AssertionError, ValueError, TypeError, AttributeError) as e:
+                res = None
+                if rr is None or (rr.n == 2 and rr.labels() == ra.labels()):
+                    ex.bad("refuses_valid_operation", hist, "refused (%r)" % (e,))
+            else:
+                if rr is not None and rr.base != ra.base:
+                    ex.bad("must_refuse", hist, "accepted a replacement in different units %s for a series in %s" % (rr.labels(), ra.labels()))
+                else:
+                    for clause, d in state_problems(res):
+                        ex.bad(clause, hist, d)
+                    if observe(res)[2] != tuple(ra.labels()):
+                        ex.bad("labels_correct", hist, "result labels %s, expected %s" % (observe(res)[2], ra.labels()))
+                    if compatible:
+                        want = [[(7.0 if rr is None else (rr.vals[i][m] if rr.n else rr.vals[i][0])) if rz.vals[i][m] == 0 else ra.vals[i][m] for m in range(2)] for i in range(3)]
+                        gotv = observe(res)[1]
+                        if any(abs(x - y) > 1e-9 for vg, vw in zip(gotv, want) for x, y in zip(vg, vw)):
+                            ex.bad("values_correct", hist, "got %s, expected %s" % (gotv, want))
+            after = (observe(a), observe(z), None if rr is None else observe(rep))
+            if after != before:
+                ex.bad("operands_unmodified", hist, "changed an operand: %s -> %s" % (before, after))
+    return n
+
+
 def run(tier, seed):
     ex = Explorer()
     seeds = pool()
@@ -401,11 +508,13 @@ def run(tier, seed):
         bound = {"depth": "d=2 complete (unary + binary, partners = every state reached so far) + d=3 unary chains, from all %d seeds" % len(seeds)}
     nc = constructor_product(ex.Food, ex)
     npred, pred_out = predicate_product(ex.Food, ex, (-1.0, 0.0, 2.0) if tier == "quick" else (-1.0, 0.0, 0.5, 2.0))
-    cov = {"executions": ex.transitions + nc + npred, "states": states, "transitions": ex.transitions,
+    nq = query_product(ex, seeds)
+    cov = {"executions": ex.transitions + nc + npred + nq, "query_and_mixed_shape_cases": nq, "states": states, "transitions": ex.transitions,
            "traces_validated_against_impl": ex.transitions, "distinct_outcomes": states + pred_out,
            "refusals_observed": ex.refusals, "constructor_cases": nc, "predicate_evaluations": npred,
            "bound": bound,
-           "alphabet": {"unary": [o[0] for o in ex.unary], "binary": [o[0] for o in ex.binary], "predicates": PREDICATES1 + PREDICATES2,
+           "alphabet": {"unary": [o[0] for o in ex.unary], "binary": [o[0] for o in ex.binary], "predicates": PREDICATES1 + PREDICATES2, "queries (operand must stay exactly as it was)": QUERIES,
+                        "mixed shape": "every comparison on every ordered (single value, series) pair of seeds; replace_if_list_with_zeros_is_zero over every (series, series, replacement) triple of seeds + a number",
                         "seed pool": [n for n, _ in seeds]},
            "samples": [{"history": ["abs:list2:A", "get_month0", "times2"]}, {"history": ["ratio:total:A", "mul(x,y:abs list)"]}],
            "caps_hit": []}
@@ -422,6 +531,8 @@ def replay(rp):
     names = [n for n, _ in seeds]
     if hist and hist[0].startswith("Food("):
         constructor_product(ex.Food, ex)
+    elif hist and hist[0].startswith("seed ") and len(hist) > 1 and (hist[1].startswith("query ") or "(x, y:" in hist[1] or hist[1].startswith("replace_if")):
+        query_product(ex, seeds)
     elif hist and hist[0] in names or (hist and hist[0].startswith("seed ")):
         ex.bfs(min(3, max(1, len(hist) - 1)), seeds, binary_depth=min(2, max(1, len(hist) - 1)))
     else:
